@@ -131,6 +131,10 @@ def forms_program():
                 ["ifx", ["const", True], [["aug", "t", ["seq", 0, "list"]]], []],
                 ["ret", var("y")],
             ],
+            # bound to containers that are mutated in place later: as *context*
+            # captures their content "at that moment" is not what the trace
+            # recorded at binding time, so lenses do not use them as context
+            mutable=["x", "y", "s", "t"],
         )
     )
     F.append(
@@ -443,6 +447,7 @@ def forms_program():
                 "clo",
                 ["p"],
                 [["bind", "x", ["add", var("c0"), V]], use("x"), ["ret", var("x")]],
+                free=["c0"],
             ),
         },
         {
@@ -453,6 +458,7 @@ def forms_program():
                 ["p"],
                 [["bind", "c1", ["add", var("c1"), V]], use("c1"), ["ret", var("c1")]],
                 nonlocals=["c1"],
+                free=["c1"],
             ),
         },
     ]
